@@ -17,7 +17,7 @@ pub struct Case {
 }
 
 fn trait_sig(m: &Method) -> String {
-    let mut ps = vec!["&self".to_string()];
+    let mut ps = vec![if m.typed_receiver { "self: &Self".to_string() } else { "&self".to_string() }];
     for p in &m.params {
         ps.push(format!("{}: {}", if p.pk == PK::Wild { "_".to_string() } else { p.name.clone() }, p.vt.ty("V")));
     }
@@ -82,11 +82,15 @@ fn borrow_method(k: usize, x: usize) -> (String, String) {
             "fn tagline<'a>(&'a self, n: u32) -> (&'a str, Option<&str>)".to_string(),
             format!("pub fn tagline<'a>(deps: &'a impl Sized, n: u32) -> (&'a str, Option<&str>) {{ rt::trace(format!(\"X{x}.TL|{{}}|{{}}\", rt::addr(deps), n)); (\"X{x}\", Some(\"X{x}\")) }}\n"),
         ),
+        4 => (
+            "fn tagline(&self, k: &str) -> (&str, usize)".to_string(),
+            format!("pub fn tagline<'a>(deps: &'a impl Sized, k: &str) -> (&'a str, usize) {{ rt::trace(format!(\"X{x}.TL|{{}}|{{}}\", rt::addr(deps), k)); (\"X{x}\", k.len()) }}\n"),
+        ),
         _ => ("fn tagline<'a>(&self, s: &'a str) -> &'a str".to_string(), format!("pub fn tagline<'a>(deps: &impl Sized, s: &'a str) -> &'a str {{ rt::trace(format!(\"X{x}.TL|{{}}|{{}}\", rt::addr(deps), s)); s }}\n")),
     }
 }
 
-pub const BORROW_KINDS: [&str; 4] = ["borrow from the receiver (elided lifetime)", "borrow from the receiver (named lifetime)", "borrow from an argument (named lifetime)", "borrow from the receiver (named lifetime next to an elided one in the output)"];
+pub const BORROW_KINDS: [&str; 5] = ["borrow from the receiver (elided lifetime)", "borrow from the receiver (named lifetime)", "borrow from an argument (named lifetime)", "borrow from the receiver (named lifetime next to an elided one in the output)", "borrow from the receiver (elided) next to another reference argument"];
 
 pub fn gen_case(t: &mut Tape, excl: &[usize]) -> Case {
     let dynamic = t.chance(2, 5);
@@ -108,7 +112,7 @@ pub fn gen_case(t: &mut Tape, excl: &[usize]) -> Case {
                     p.vt = VT::I32;
                 }
             }
-            Method { name: names[i].clone(), tag: format!("M{i}"), is_async: any_async && t.chance(2, 3), params, has_gen: false, uses_u: false, typed_receiver: false, ret_unit: t.chance(1, 5), where_form: false }
+            Method { name: names[i].clone(), tag: format!("M{i}"), is_async: any_async && t.chance(2, 3), params, has_gen: false, uses_u: false, typed_receiver: t.chance(1, 8), ret_unit: t.chance(1, 5), where_form: false }
         };
         methods.push(m);
     }
@@ -116,7 +120,7 @@ pub fn gen_case(t: &mut Tape, excl: &[usize]) -> Case {
         methods[0].is_async = true;
     }
     // an extra method that returns a borrow: from the receiver / the dependency (elided or named lifetime) or from an argument
-    let borrow_kind: Option<usize> = if t.chance(1, 3) { Some([0, 1, 2, 3, 2][t.choose(5)]) } else { None };
+    let borrow_kind: Option<usize> = if t.chance(1, 3) { Some([0, 1, 2, 3, 4, 2][t.choose(6)]) } else { None };
     let borrow_kind = borrow_kind.filter(|k| !excl.contains(k));
     // static selection: a method with type / const parameters of its own (one inferable from an argument, one not),
     // and a method that takes `self` by value (the block's fn takes its dependency by value)
@@ -288,7 +292,7 @@ pub fn gen_case(t: &mut Tape, excl: &[usize]) -> Case {
     }
     if let Some(k) = borrow_kind {
         for a in 0..n_apps {
-            let arg = if k == 2 { "\"arg\"" } else { "77" };
+            let arg = if k == 2 || k == 4 { "\"arg\"" } else { "77" };
             src.push_str("    {\n        let _ = rt::take();\n");
             src.push_str(&format!("        let direct = format!(\"{{:?}}\", X{a}::tagline(&app{a}, {arg}));\n        let t_direct = rt::take();\n"));
             src.push_str(&format!("/*GEN*/ let via = format!(\"{{:?}}\", Tr::tagline(&app{a}, {arg}));\n        let t_via = rt::take();\n"));
@@ -377,10 +381,13 @@ pub fn gen_case(t: &mut Tape, excl: &[usize]) -> Case {
         classes.push("block_from_macro_rules_with_same_spelled_parameters");
     }
     if let Some(k) = borrow_kind {
-        classes.push(["borrowed_return:receiver_elided", "borrowed_return:receiver_named", "borrowed_return:argument_named", "borrowed_return:receiver_named_and_elided"][k]);
+        classes.push(["borrowed_return:receiver_elided", "borrowed_return:receiver_named", "borrowed_return:argument_named", "borrowed_return:receiver_named_and_elided", "borrowed_return:receiver_elided_next_to_reference_argument"][k]);
     }
     if gen_method.is_some() {
         classes.push("method_with_type_and_const_parameters");
+    }
+    if methods.iter().any(|m| m.typed_receiver) {
+        classes.push("typed_reference_receiver");
     }
     if byval_method.is_some() {
         classes.push("by_value_self_method");
